@@ -86,7 +86,7 @@ EXTRAS = {  # variant -> (member, payload (None = copy of a slide), Override typ
 STRUCT = {"no-content-types": KeyError, "no-root-rels": KeyError, "no-office-document-rel": KeyError, "main-part-absent": KeyError,
           "main-type-word": ValueError, "main-type-excel": ValueError, "main-type-template": ValueError, "main-type-slideshow": ValueError}
 TRUNC = ["trunc-head", "trunc-mid-member", "trunc-member-boundary", "trunc-mid-central-directory", "trunc-no-eocd", "trunc-mid-eocd", "trunc-random"]
-SYNTH = ["empty", "text", "random", "zip-not-opc", "zip-empty", "empty-directory", "nonexistent-path"]
+SYNTH = ["empty", "text", "random", "zip-not-opc", "zip-empty", "empty-directory", "nonexistent-path", "empty-string-path"]
 _DECKS = {}
 _MEMO = {}
 
@@ -669,7 +669,7 @@ def nonpkg_input(d):
         return "members", {"hello.txt": b"hello", "dir/data.bin": b"\x00\x01"}
     if c == "zip-empty":
         return "members", {}
-    return {"empty-directory": "emptydir", "nonexistent-path": "nopath"}[c], None
+    return {"empty-directory": "emptydir", "nonexistent-path": "nopath", "empty-string-path": "emptystr"}[c], None
 
 
 def run_nonpkg(d, acc):
@@ -710,6 +710,8 @@ def run_nonpkg(d, acc):
             os.makedirs(arg)
         elif kind == "nopath":
             arg = os.path.join(tmp, "no-such-file.pptx")
+        elif kind == "emptystr":
+            arg = ""  # a path that names no file (only None stands for the default template)
         elif form == "stream":
             arg = io.BytesIO(payload)
         elif form == "path":
@@ -780,7 +782,8 @@ def synthetic_cases(rnd):
         out += [{"nonpkg": c, "form": f} for c in ("empty", "text", "zip-not-opc", "zip-empty")]
         out += [{"nonpkg": "text", "form": f, "size": 3000}]
         out += [{"nonpkg": "random", "form": f, "size": s, "seed": rnd.randrange(1 << 30)} for s in (1, 21, 22, 100, 5000, 70000)]
-    out += [{"nonpkg": "zip-not-opc", "form": "dir"}, {"nonpkg": "empty-directory", "form": "path"}, {"nonpkg": "nonexistent-path", "form": "path"}]
+    out += [{"nonpkg": "zip-not-opc", "form": "dir"}, {"nonpkg": "empty-directory", "form": "path"}, {"nonpkg": "nonexistent-path", "form": "path"},
+            {"nonpkg": "empty-string-path", "form": "path"}]
     return out
 
 
